@@ -420,6 +420,15 @@ var c19Alphabets = [][]rune{
 }
 
 func genC19Bytes(r *Rng) []byte {
+	if r.Chance(2) {
+		// long identifiers: dozens to hundreds of runs of one character class after another (what a splitter with a fixed
+		// number of slots, a table of a fixed size or a buffer boundary would stumble over)
+		var b strings.Builder
+		for n := 20 + r.Intn(140); n > 0; n-- {
+			b.WriteString(Pick(r, []string{"Ab", "aB", "A1b", "ab_", "X", "é", "Éa", "9", "Http", "ID", "x"}))
+		}
+		return []byte(b.String())
+	}
 	switch r.Intn(12) {
 	case 0: // invalid UTF-8
 		b := []byte(r.Str(c19Alphabets[0], 6))
@@ -614,7 +623,7 @@ func init() {
 			Name: "split", Quick: 20000, Thorough: 300000,
 			New:  func() Case { return &splitCase{} },
 			Gen:  func(r *Rng, i int) Case { return splitCase{genC19Bytes(r)} },
-			Rule: "random byte strings over identifier/punctuation/Unicode-case alphabets plus an invalid-UTF-8 stream; compared: list of words or panic; non-trivial = at least two rune classes or invalid bytes; distinct by input",
+			Rule: "random byte strings over identifier/punctuation/Unicode-case alphabets (one in fifty a long identifier of 20–160 pieces, i.e. up to a few hundred runs of character classes) plus an invalid-UTF-8 stream; compared: list of words or panic; non-trivial = at least two rune classes or invalid bytes; distinct by input",
 		},
 		{
 			Name: "split-exhaustive", New: func() Case { return &splitCase{} },
